@@ -43,7 +43,8 @@ Section Default.
   Variable cidok : bytes -> bool.      (* go-cid accepts the binary form of the link (cid.Cast) *)
 
   (* every well-formed entry can be written, and reading the written tree back yields [normal h e]:
-     e with its hash set to the identifier read, AdditionalData dropped, refs dropped when v <= 1 *)
+     e with its hash set to the identifier read, AdditionalData reduced to the two stored link
+     strings (if any), refs dropped when v <= 1 *)
   Theorem C08_roundtrip e h : wf_entry cidok e = true ->
     exists t, to_tree e = Ok t /\ wf t = true /\ of_tree_plain cidok h t = Ok (normal h e).
   Proof. exact (entry_roundtrip cidok e h). Qed.
@@ -62,8 +63,9 @@ Section Default.
     exists b, entry_block e = Ok b /\ of_block_plain cidok h b = Ok (normal h e).
   Proof. exact (entry_bytes_roundtrip cidok e h). Qed.
 
-  (* re-encoding the decoded entry gives the same block *)
-  Theorem C08_reencode e h : wf_entry cidok e = true -> has_enc e = false ->
+  (* re-encoding the decoded entry gives the same block - every well-formed entry, also one that
+     carries the link strings (repaired by 7c07d71; regression witness at the end) *)
+  Theorem C08_reencode e h : wf_entry cidok e = true ->
     exists b e', entry_block e = Ok b /\ of_block_plain cidok h b = Ok e' /\ entry_block e' = Ok b.
   Proof. exact (entry_reencode_bytes cidok e h). Qed.
 
@@ -117,7 +119,9 @@ Section LinkKey.
   Hypothesis b64_inv : forall x, b64dec (b64enc x) = Some x.               (* encoding/base64 *)
 
   (* e is what PreSign returns (C08_presign_shape): links still in place, the two strings attached.
-     Written with the key and read back with the same key: every field except AdditionalData. *)
+     Written with the key and read back with the same key: every field - links recovered,
+     AdditionalData = the two stored strings ([strip_additional]) - and the entry read back encodes
+     to the same tree again. *)
   Theorem C08_linkkey_roundtrip k e h lt nonce :
     wf_entry cidok e = true -> (1 <? e_v e) = true ->
     links_tree (e_next e) (e_refs e) = Ok lt ->
@@ -125,8 +129,32 @@ Section LinkKey.
     assoc key_enc_nonce (e_additional e) = Some (b64enc nonce) ->
     is_nil (b64enc (seal k nonce (encode lt))) = false -> is_nil (b64enc nonce) = false ->
     exists t, to_tree e = Ok t /\ wf t = true /\
-              of_tree cidok K open_ b64dec (Some k) h t = Ok (strip h e).
+              of_tree cidok K open_ b64dec (Some k) h t = Ok (strip_additional h e) /\
+              to_tree (strip_additional h e) = Ok t.
   Proof. exact (link_roundtrip_core cidok K seal open_ b64enc b64dec open_seal b64_inv k e h lt nonce). Qed.
+
+  (* "equal in every field": when AdditionalData holds nothing but the two strings (what PreSign
+     produces from an entry without AdditionalData), the entry read back IS the entry written *)
+  Theorem C08_linkkey_roundtrip_exact k e h lt nonce :
+    wf_entry cidok e = true -> (1 <? e_v e) = true ->
+    links_tree (e_next e) (e_refs e) = Ok lt ->
+    e_additional e = [(key_enc_nonce, b64enc nonce); (key_enc_links, b64enc (seal k nonce (encode lt)))] ->
+    is_nil (b64enc (seal k nonce (encode lt))) = false -> is_nil (b64enc nonce) = false ->
+    exists t e', to_tree e = Ok t /\ of_tree cidok K open_ b64dec (Some k) h t = Ok e' /\
+      e_v e' = e_v e /\ e_logid e' = e_logid e /\ e_payload e' = e_payload e /\ e_next e' = e_next e /\
+      e_refs e' = e_refs e /\ e_clock e' = e_clock e /\ e_key e' = e_key e /\ e_sig e' = e_sig e /\
+      e_identity e' = e_identity e /\ e_hash e' = Some h /\
+      Permutation (e_additional e') (e_additional e).
+  Proof.
+    intros W V L A N1 N2.
+    assert (A1 : assoc key_enc_links (e_additional e) = Some (b64enc (seal k nonce (encode lt)))) by (rewrite A; reflexivity).
+    assert (A2 : assoc key_enc_nonce (e_additional e) = Some (b64enc nonce)) by (rewrite A; reflexivity).
+    destruct (link_roundtrip_core cidok K seal open_ b64enc b64dec open_seal b64_inv k e h lt nonce W V L A1 A2 N1 N2)
+      as (t & Et & _ & Dt & _).
+    exists t, (strip_additional h e). split; [exact Et|]. split; [exact Dt|].
+    unfold strip_additional, enc_pair. cbn [e_v e_logid e_payload e_next e_refs e_clock e_key e_sig e_identity e_hash e_additional].
+    rewrite A1, A2, V, N1. cbn [andb]. repeat split. rewrite A. apply perm_swap.
+  Qed.
 
   Theorem C08_presign_shape k e e' :
     presign K seal nonce_of b64enc (Some k) e = Ok e' ->
@@ -138,55 +166,33 @@ Section LinkKey.
       assoc key_enc_nonce (e_additional e') = Some (b64enc (nonce_of c)).
   Proof. exact (presign_shape K seal nonce_of b64enc k e e'). Qed.
 
-  (* FINDING (key C08:readback-field:additional-data): "equal in every field" fails for the
-     AdditionalData field: the block stores enc_links / enc_links_nonce, DecodeRawEntry drops them. *)
-  Theorem C08_linkkey_additional_data_refuted k e h lt nonce :
+  (* REGRESSION witness for the defect repaired by 7c07d71 (former finding
+     C08:readback-field:additional-data): the reader as it was ([of_tree_before_fix]) returned an
+     empty AdditionalData for every link-encrypted entry. *)
+  Theorem C08_regression_linkkey_additional_data_was_dropped k e h lt nonce :
     wf_entry cidok e = true -> (1 <? e_v e) = true ->
     links_tree (e_next e) (e_refs e) = Ok lt ->
     assoc key_enc_links (e_additional e) = Some (b64enc (seal k nonce (encode lt))) ->
     assoc key_enc_nonce (e_additional e) = Some (b64enc nonce) ->
     is_nil (b64enc (seal k nonce (encode lt))) = false -> is_nil (b64enc nonce) = false ->
-    exists t e', to_tree e = Ok t /\ of_tree cidok K open_ b64dec (Some k) h t = Ok e' /\
+    exists t e', to_tree e = Ok t /\ of_tree_before_fix cidok K open_ b64dec (Some k) h t = Ok e' /\
                  e_additional e' = [] /\ e_additional e <> [].
-  Proof.
-    intros W V L A1 A2 N1 N2.
-    destruct (link_roundtrip_core cidok K seal open_ b64enc b64dec open_seal b64_inv k e h lt nonce W V L A1 A2 N1 N2)
-      as (t & Et & _ & Dt).
-    exists t, (strip h e). repeat split; auto. intros E. rewrite E in A1. discriminate.
-  Qed.
-
-  (* after the repair proposed in notes/C08.md (ToPlain restores the two strings): AdditionalData
-     is what was stored, the links are recovered, and re-encoding gives the same tree again *)
-  Theorem C08_linkkey_roundtrip_after_fix k e h lt nonce :
-    wf_entry cidok e = true -> (1 <? e_v e) = true ->
-    links_tree (e_next e) (e_refs e) = Ok lt ->
-    assoc key_enc_links (e_additional e) = Some (b64enc (seal k nonce (encode lt))) ->
-    assoc key_enc_nonce (e_additional e) = Some (b64enc nonce) ->
-    is_nil (b64enc (seal k nonce (encode lt))) = false -> is_nil (b64enc nonce) = false ->
-    exists t e', to_tree e = Ok t /\
-              of_tree_fixed cidok K open_ b64dec (Some k) h t = Ok e' /\
-              e_next e' = e_next e /\ e_refs e' = e_refs e /\
-              e_additional e' = [(key_enc_links, b64enc (seal k nonce (encode lt))); (key_enc_nonce, b64enc nonce)] /\
-              to_tree e' = to_tree e.
-  Proof. exact (link_roundtrip_core_fixed cidok K seal open_ b64enc b64dec open_seal b64_inv k e h lt nonce). Qed.
+  Proof. exact (link_roundtrip_before_fix cidok K seal open_ b64enc b64dec open_seal b64_inv k e h lt nonce). Qed.
 End LinkKey.
 
-(* FINDING, same root cause, default codec (key C08:reencode-cid:enc-additional-data): an entry
-   whose AdditionalData carries both strings (e.g. one produced by the link-encrypting codec and
-   handed to a default-codec writer) does not re-encode to the same block after a read. *)
-Theorem C08_reencode_with_enc_strings_refuted :
-  exists e h b b', wf_entry (fun _ => true) e = true /\ has_enc e = true /\
-    entry_block e = Ok b /\ of_block_plain (fun _ => true) h b = Ok (normal h e) /\
-    entry_block (normal h e) = Ok b' /\ b <> b'.
+(* REGRESSION witness, same root cause, default codec (former finding
+   C08:reencode-cid:enc-additional-data): an entry whose AdditionalData carries both strings used
+   to decode to an entry that re-encoded to a different block; now it re-encodes to the same one. *)
+Theorem C08_regression_reencode_with_enc_strings :
+  exists e h t e_old e_new b b', wf_entry (fun _ => true) e = true /\ has_enc e = true /\
+    to_tree e = Ok t /\ entry_block e = Ok b /\
+    of_tree_before_fix (fun _ => true) unit (fun _ _ _ => None) (fun _ => None) None h t = Ok e_old /\
+    entry_block e_old = Ok b' /\ b <> b' /\
+    of_tree_plain (fun _ => true) h t = Ok e_new /\ entry_block e_new = Ok b.
 Proof.
-  destruct reencode_with_enc_strings_differs as (W & E & b & b' & H1 & H2 & H3 & H4).
-  eexists. exists [9], b, b'. repeat split; eauto.
+  destruct reencode_with_enc_strings_before_fix as (W & E & t & eo & en & b & b' & H1 & H2 & H3 & H4 & H5 & H6 & H7).
+  eexists. exists [9], t, eo, en, b, b'. repeat split; eauto.
 Qed.
-
-Theorem C08_reencode_after_fix cidok e h : wf_entry cidok e = true ->
-  exists t e', to_tree e = Ok t /\ of_tree_fixed cidok unit (fun _ _ _ => None) (fun _ => None) None h t = Ok e' /\
-               to_tree e' = to_tree e.
-Proof. exact (entry_reencode_fixed cidok e h). Qed.
 
 (* ---------------------------------------------------------------------------------------------
    legacy v0: struct level (JSON and protobuf parsing are third party, exercised by the harness) *)
@@ -225,7 +231,7 @@ Example C08_linkkey_nonvacuous :
   exists e', presign unit seal (fun _ => [7]) b64 (Some tt) (toy_entry []) = Ok e' /\
              wf_entry (fun _ => true) e' = true /\
              exists t, to_tree e' = Ok t /\
-                       of_tree (fun _ => true) unit open_ (fun x => Some x) (Some tt) [9] t = Ok (strip [9] e').
+                       of_tree (fun _ => true) unit open_ (fun x => Some x) (Some tt) [9] t = Ok (strip_additional [9] e').
 Proof. cbv zeta. eexists. split; [vm_compute; reflexivity|]. split; [reflexivity|]. eexists. split; [vm_compute; reflexivity|]. vm_compute. reflexivity. Qed.
 
 Print Assumptions C08_cbor_decode_encode.
@@ -245,10 +251,9 @@ Print Assumptions C08_same_bytes_same_cid.
 Print Assumptions C08_nil_and_empty_lists_encode_differently.
 Print Assumptions C08_linkkey_roundtrip.
 Print Assumptions C08_presign_shape.
-Print Assumptions C08_linkkey_additional_data_refuted.
-Print Assumptions C08_linkkey_roundtrip_after_fix.
-Print Assumptions C08_reencode_with_enc_strings_refuted.
-Print Assumptions C08_reencode_after_fix.
+Print Assumptions C08_linkkey_roundtrip_exact.
+Print Assumptions C08_regression_linkkey_additional_data_was_dropped.
+Print Assumptions C08_regression_reencode_with_enc_strings.
 Print Assumptions C08_v0_struct_roundtrip.
 Print Assumptions C08_v0_not_writable_as_cbor.
 Print Assumptions C08_nonvacuous.
